@@ -127,6 +127,9 @@ def check_meaning(ctx, backend, e, text):
         if comp in ("user", "password", "path", "query", "fragment") and "suffix" not in ent.tags:
             ctx.check(False, "str(url) of an auto-encoded URL is rejected by the constructor", observed={"str": str(u), "exc": ex}, expected="accepted", entry=e)
     sup = ent.prefix + t
+    for tag in ent.tags:
+        if tag.startswith("stem:"):
+            ctx.check(u.raw_name.startswith(tag[5:] + "."), "with_suffix() changed the encoded stem of the name", observed=u.raw_name, expected=tag[5:] + ".<suffix>", entry=e)
     if "suffix" in ent.tags:
         if "." in t:
             ctx.label("skipped:suffix-with-dot")
